@@ -822,13 +822,16 @@ pub fn scripted_read_data_impl<W: Write, R: BufRead>(_state: &mut RunState<W>, i
     Ok(())
 }
 
-fn data_arm_glue<const LEFT: usize, const N: usize, const FAIL: usize>() {
+fn data_arm_glue<const LEFT: usize, const N: usize, const FAIL: usize, const KIND: usize, const ALLOW: bool, const CONSUME: usize>() {
+    use crate::decode::lzma::verif_h::{PS_CALLS, PS_CONSUME, PS_FAIL_AT, PS_FAIL_KIND, PS_LEN0, PS_LEN1, PS_LEN2};
     let mut t = Tape::<64>::new();
     let left: [u8; 18] = t.bytes::<18>();
     let input: [u8; N] = t.bytes::<N>();
     let extra = [t.u8(), t.u8()];
-    RD_CALLS.store(0, Ordering::Relaxed);
-    RD_FAIL_AT.store(FAIL, Ordering::Relaxed);
+    PS_CALLS.store(0, Ordering::Relaxed);
+    PS_FAIL_AT.store(FAIL, Ordering::Relaxed);
+    PS_FAIL_KIND.store(KIND, Ordering::Relaxed);
+    PS_CONSUME.store(CONSUME, Ordering::Relaxed);
     let d = light_state::<0>(LzmaProperties { lc: 0, lp: 0, pb: 0 }, None);
     let mut tmp = std::io::Cursor::new([0u8; MAX_TMP_LEN]);
     {
@@ -840,16 +843,18 @@ fn data_arm_glue<const LEFT: usize, const N: usize, const FAIL: usize>() {
         }
     }
     tmp.set_position(LEFT as u64);
+    let r0 = t.u32();
+    let c0 = t.u32();
     let rs = RunState {
         decoder: d,
-        range: t.u32(),
-        code: t.u32(),
+        range: r0,
+        code: c0,
         output: crate::decode::lzbuffer::verif_h::circ_from_stream_with_capacity(CountSink::new(), 0x1000, usize::MAX),
     };
     let mut s = Stream {
         tmp,
         state: Some(State::Data(Box::new(rs))),
-        options: opts(false, None),
+        options: opts(ALLOW, None),
     };
     let r1 = s.write(&input[..]);
     let n1 = match &r1 {
@@ -857,22 +862,37 @@ fn data_arm_glue<const LEFT: usize, const N: usize, const FAIL: usize>() {
         Err(_) => usize::MAX,
     };
     forget(r1);
-    let calls1 = RD_CALLS.load(Ordering::Relaxed);
+    let calls1 = PS_CALLS.load(Ordering::Relaxed);
     let first_calls = if LEFT > 0 { 2 } else { 1 };
     if FAIL < first_calls {
-        vassert!(n1 == usize::MAX, "data arm: an error while decoding (staged leftover or new input) is returned by write");
-        vassert!(is_failed(&s), "data arm: the stream is failed after a decoding error, also when it occurs while draining the staged bytes");
+        vassert!(n1 == usize::MAX, "data arm: an error while decoding (staged leftover or new input, decoding error or sink failure) is returned by write");
+        vassert!(is_failed(&s), "data arm: the stream is failed after any error of the data phase, whatever the options");
         vassert!(calls1 == FAIL + 1, "data arm: nothing more is decoded after the failing call");
     } else {
-        vassert!(n1 == N, "data arm: the whole piece is consumed");
+        vassert!(n1 == if CONSUME == 1 { N } else { 0 }, "data arm: write reports exactly what the decoder consumed (nothing once the declared size is reached)");
         vassert!(calls1 == first_calls, "data arm: the staged leftover is drained (once) before the new input");
         if LEFT > 0 {
-            vassert!(RD_LEN0.load(Ordering::Relaxed) == LEFT && RD_LEN1.load(Ordering::Relaxed) == N, "data arm: first the staged bytes, then the new input, each in full");
+            vassert!(PS_LEN0.load(Ordering::Relaxed) == LEFT && PS_LEN1.load(Ordering::Relaxed) == N, "data arm: first the staged bytes, then the new input, each in full");
         } else {
-            vassert!(RD_LEN0.load(Ordering::Relaxed) == N, "data arm: the new input in full");
+            vassert!(PS_LEN0.load(Ordering::Relaxed) == N, "data arm: the new input in full");
         }
         vassert!(s.tmp.position() == 0, "data arm: the staged bytes are forgotten once drained");
-        vassert!(!is_failed(&s), "data arm: the stream stays usable");
+        match data_state(&s) {
+            Some(rs) => {
+                // two (or one) scripted steps applied to (r0, c0)
+                let (mut er, mut ec) = (r0, c0);
+                if LEFT > 0 {
+                    er = er.rotate_left(1) ^ 0x5A5A_0000;
+                    ec = ec.wrapping_add(LEFT as u32 + 1);
+                }
+                er = er.rotate_left(1) ^ 0x5A5A_0000;
+                ec = ec.wrapping_add(N as u32 + 1);
+                vassert!(rs.range == er && rs.code == ec, "data arm: the coder state after each pass is carried into the next and saved");
+            }
+            None => {
+                vassert!(false, "data arm: the stream stays usable");
+            }
+        }
     }
     // a further write
     let r2 = s.write(&extra[..]);
@@ -881,82 +901,21 @@ fn data_arm_glue<const LEFT: usize, const N: usize, const FAIL: usize>() {
         Err(_) => usize::MAX,
     };
     forget(r2);
-    let calls2 = RD_CALLS.load(Ordering::Relaxed);
+    let calls2 = PS_CALLS.load(Ordering::Relaxed);
     if FAIL < first_calls {
-        vassert!(n2 == 0, "data arm: writes after a decoding error consume nothing");
+        vassert!(n2 == 0, "data arm: writes after an error consume nothing");
         vassert!(calls2 == calls1, "data arm: nothing is decoded after the stream failed");
         let fin = s.finish();
-        vassert!(fin.is_err(), "data arm: finish after a decoding error is an error");
+        vassert!(fin.is_err(), "data arm: finish after an error is an error");
         forget(fin);
     } else {
         vassert!(calls2 == calls1 + 1, "data arm: the next write decodes only its own bytes (the staged leftover is not fed again)");
-        let last = if calls1 == 1 { RD_LEN1.load(Ordering::Relaxed) } else { RD_LEN2.load(Ordering::Relaxed) };
-        vassert!(n2 == 2 && last == 2, "data arm: the next write is consumed in full");
+        let last = if calls1 == 1 { PS_LEN1.load(Ordering::Relaxed) } else { PS_LEN2.load(Ordering::Relaxed) };
+        vassert!(last == 2 && n2 == if CONSUME == 1 { 2 } else { 0 }, "data arm: the next write is offered in full and reports what was consumed");
         forget(s);
     }
     vcover!(true, "end_reached");
 }
-
-//@ harness props=C16,C05,C15,C07 tier=quick unwind=20 mem_gb=6 timeout=600 native=no
-//@ bound: data arm of Stream::write with read_data scripted: 8 staged leftover bytes, write(3 bytes), no failure; then another write (and finish)
-#[cfg_attr(kani, kani::proof)]
-#[cfg_attr(kani, kani::stub(std::fmt::format, crate::verif_common::stub_format))]
-#[cfg_attr(kani, kani::stub(std::io::Error::is_interrupted, crate::verif_common::stub_not_interrupted))]
-#[cfg_attr(kani, kani::stub(crate::decode::stream::Stream::read_data, crate::decode::stream::Stream::scripted_read_data))]
-pub fn stream_data_arm_glue_l8_n3_ok() {
-    data_arm_glue::<8, 3, 18446744073709551615>()
-}
-
-//@ harness props=C16,C05,C15,C07 tier=quick unwind=20 mem_gb=6 timeout=600 native=no
-//@ bound: data arm of Stream::write with read_data scripted: 8 staged leftover bytes, write(3 bytes), decoding the staged leftover fails; then another write (and finish)
-#[cfg_attr(kani, kani::proof)]
-#[cfg_attr(kani, kani::stub(std::fmt::format, crate::verif_common::stub_format))]
-#[cfg_attr(kani, kani::stub(std::io::Error::is_interrupted, crate::verif_common::stub_not_interrupted))]
-#[cfg_attr(kani, kani::stub(crate::decode::stream::Stream::read_data, crate::decode::stream::Stream::scripted_read_data))]
-pub fn stream_data_arm_glue_l8_n3_fail0() {
-    data_arm_glue::<8, 3, 0>()
-}
-
-//@ harness props=C16,C05,C15,C07 tier=quick unwind=20 mem_gb=6 timeout=600 native=no
-//@ bound: data arm of Stream::write with read_data scripted: 8 staged leftover bytes, write(3 bytes), decoding the new input fails; then another write (and finish)
-#[cfg_attr(kani, kani::proof)]
-#[cfg_attr(kani, kani::stub(std::fmt::format, crate::verif_common::stub_format))]
-#[cfg_attr(kani, kani::stub(std::io::Error::is_interrupted, crate::verif_common::stub_not_interrupted))]
-#[cfg_attr(kani, kani::stub(crate::decode::stream::Stream::read_data, crate::decode::stream::Stream::scripted_read_data))]
-pub fn stream_data_arm_glue_l8_n3_fail1() {
-    data_arm_glue::<8, 3, 1>()
-}
-
-//@ harness props=C16,C05,C15,C07 tier=quick unwind=20 mem_gb=6 timeout=600 native=no
-//@ bound: data arm of Stream::write with read_data scripted: 0 staged leftover bytes, write(6 bytes), no leftover, no failure; then another write (and finish)
-#[cfg_attr(kani, kani::proof)]
-#[cfg_attr(kani, kani::stub(std::fmt::format, crate::verif_common::stub_format))]
-#[cfg_attr(kani, kani::stub(std::io::Error::is_interrupted, crate::verif_common::stub_not_interrupted))]
-#[cfg_attr(kani, kani::stub(crate::decode::stream::Stream::read_data, crate::decode::stream::Stream::scripted_read_data))]
-pub fn stream_data_arm_glue_l0_n6_ok() {
-    data_arm_glue::<0, 6, 18446744073709551615>()
-}
-
-//@ harness props=C16,C05,C15,C07 tier=quick unwind=20 mem_gb=6 timeout=600 native=no
-//@ bound: data arm of Stream::write with read_data scripted: 0 staged leftover bytes, write(6 bytes), no leftover, decoding fails; then another write (and finish)
-#[cfg_attr(kani, kani::proof)]
-#[cfg_attr(kani, kani::stub(std::fmt::format, crate::verif_common::stub_format))]
-#[cfg_attr(kani, kani::stub(std::io::Error::is_interrupted, crate::verif_common::stub_not_interrupted))]
-#[cfg_attr(kani, kani::stub(crate::decode::stream::Stream::read_data, crate::decode::stream::Stream::scripted_read_data))]
-pub fn stream_data_arm_glue_l0_n6_fail0() {
-    data_arm_glue::<0, 6, 0>()
-}
-
-//@ harness props=C16,C05,C15,C07 tier=quick unwind=20 mem_gb=6 timeout=600 native=no
-//@ bound: data arm of Stream::write with read_data scripted: 17 staged leftover bytes, write(1 bytes), 17 staged bytes, no failure; then another write (and finish)
-#[cfg_attr(kani, kani::proof)]
-#[cfg_attr(kani, kani::stub(std::fmt::format, crate::verif_common::stub_format))]
-#[cfg_attr(kani, kani::stub(std::io::Error::is_interrupted, crate::verif_common::stub_not_interrupted))]
-#[cfg_attr(kani, kani::stub(crate::decode::stream::Stream::read_data, crate::decode::stream::Stream::scripted_read_data))]
-pub fn stream_data_arm_glue_l17_n1_ok() {
-    data_arm_glue::<17, 1, 18446744073709551615>()
-}
-
 /// Stream::read_data called directly (RunState by value): it runs process_stream on the input
 /// and writes (range, code) back into the run state; a decoding error is mapped to an io error.
 fn read_data_unit<const N: usize, const BAD: bool>() {
@@ -1097,4 +1056,104 @@ pub fn stream_finish_leftover_l0_strict() {
 #[cfg_attr(kani, kani::stub(crate::decode::lzma::DecoderState::process, crate::decode::lzma::DecoderState::scripted_process))]
 pub fn stream_finish_leftover_l8_allow() {
     finish_leftover::<8, true>()
+}
+
+//@ harness props=C16,C05,C15,C07 tier=quick unwind=20 mem_gb=6 timeout=600 native=no
+//@ bound: data arm of Stream::write (real read_data, DecoderState::process_stream scripted): 8 staged leftover bytes, write(3 bytes), no failure; then another write (and finish)
+#[cfg_attr(kani, kani::proof)]
+#[cfg_attr(kani, kani::stub(std::fmt::format, crate::verif_common::stub_format))]
+#[cfg_attr(kani, kani::stub(std::io::Error::is_interrupted, crate::verif_common::stub_not_interrupted))]
+#[cfg_attr(kani, kani::stub(crate::decode::lzma::DecoderState::process_stream, crate::decode::lzma::DecoderState::scripted_process_stream))]
+pub fn stream_data_arm_glue_l8_n3_ok() {
+    data_arm_glue::<8, 3, 18446744073709551615, 0, false, 1>()
+}
+
+//@ harness props=C16,C05,C15,C07 tier=quick unwind=20 mem_gb=6 timeout=600 native=no
+//@ bound: data arm of Stream::write (real read_data, DecoderState::process_stream scripted): 8 staged leftover bytes, write(3 bytes), decoding the staged leftover fails (decoding error); then another write (and finish)
+#[cfg_attr(kani, kani::proof)]
+#[cfg_attr(kani, kani::stub(std::fmt::format, crate::verif_common::stub_format))]
+#[cfg_attr(kani, kani::stub(std::io::Error::is_interrupted, crate::verif_common::stub_not_interrupted))]
+#[cfg_attr(kani, kani::stub(crate::decode::lzma::DecoderState::process_stream, crate::decode::lzma::DecoderState::scripted_process_stream))]
+pub fn stream_data_arm_glue_l8_n3_fail0() {
+    data_arm_glue::<8, 3, 0, 0, false, 1>()
+}
+
+//@ harness props=C16,C05,C15,C07 tier=quick unwind=20 mem_gb=6 timeout=600 native=no
+//@ bound: data arm of Stream::write (real read_data, DecoderState::process_stream scripted): 8 staged leftover bytes, write(3 bytes), decoding the new input fails (decoding error); then another write (and finish)
+#[cfg_attr(kani, kani::proof)]
+#[cfg_attr(kani, kani::stub(std::fmt::format, crate::verif_common::stub_format))]
+#[cfg_attr(kani, kani::stub(std::io::Error::is_interrupted, crate::verif_common::stub_not_interrupted))]
+#[cfg_attr(kani, kani::stub(crate::decode::lzma::DecoderState::process_stream, crate::decode::lzma::DecoderState::scripted_process_stream))]
+pub fn stream_data_arm_glue_l8_n3_fail1() {
+    data_arm_glue::<8, 3, 1, 0, false, 1>()
+}
+
+//@ harness props=C16,C05,C15,C07 tier=quick unwind=20 mem_gb=6 timeout=600 native=no
+//@ bound: data arm of Stream::write (real read_data, DecoderState::process_stream scripted): 8 staged leftover bytes, write(3 bytes), the sink fails while decoding the new input (I/O error); then another write (and finish)
+#[cfg_attr(kani, kani::proof)]
+#[cfg_attr(kani, kani::stub(std::fmt::format, crate::verif_common::stub_format))]
+#[cfg_attr(kani, kani::stub(std::io::Error::is_interrupted, crate::verif_common::stub_not_interrupted))]
+#[cfg_attr(kani, kani::stub(crate::decode::lzma::DecoderState::process_stream, crate::decode::lzma::DecoderState::scripted_process_stream))]
+pub fn stream_data_arm_glue_l8_n3_iofail1() {
+    data_arm_glue::<8, 3, 1, 1, false, 1>()
+}
+
+//@ harness props=C16,C05,C15,C07 tier=quick unwind=20 mem_gb=6 timeout=600 native=no
+//@ bound: data arm of Stream::write (real read_data, DecoderState::process_stream scripted): 0 staged leftover bytes, write(6 bytes), no leftover, the sink fails (I/O error); then another write (and finish)
+#[cfg_attr(kani, kani::proof)]
+#[cfg_attr(kani, kani::stub(std::fmt::format, crate::verif_common::stub_format))]
+#[cfg_attr(kani, kani::stub(std::io::Error::is_interrupted, crate::verif_common::stub_not_interrupted))]
+#[cfg_attr(kani, kani::stub(crate::decode::lzma::DecoderState::process_stream, crate::decode::lzma::DecoderState::scripted_process_stream))]
+pub fn stream_data_arm_glue_l0_n6_iofail0() {
+    data_arm_glue::<0, 6, 0, 1, false, 1>()
+}
+
+//@ harness props=C16,C05,C15,C07 tier=quick unwind=20 mem_gb=6 timeout=600 native=no
+//@ bound: data arm of Stream::write (real read_data, DecoderState::process_stream scripted): 0 staged leftover bytes, write(6 bytes), allow_incomplete set, decoding fails; then another write (and finish)
+#[cfg_attr(kani, kani::proof)]
+#[cfg_attr(kani, kani::stub(std::fmt::format, crate::verif_common::stub_format))]
+#[cfg_attr(kani, kani::stub(std::io::Error::is_interrupted, crate::verif_common::stub_not_interrupted))]
+#[cfg_attr(kani, kani::stub(crate::decode::lzma::DecoderState::process_stream, crate::decode::lzma::DecoderState::scripted_process_stream))]
+pub fn stream_data_arm_glue_l0_n6_fail0_allow() {
+    data_arm_glue::<0, 6, 0, 0, true, 1>()
+}
+
+//@ harness props=C16,C05,C15,C07 tier=quick unwind=20 mem_gb=6 timeout=600 native=no
+//@ bound: data arm of Stream::write (real read_data, DecoderState::process_stream scripted): 0 staged leftover bytes, write(6 bytes), no leftover, no failure; then another write (and finish)
+#[cfg_attr(kani, kani::proof)]
+#[cfg_attr(kani, kani::stub(std::fmt::format, crate::verif_common::stub_format))]
+#[cfg_attr(kani, kani::stub(std::io::Error::is_interrupted, crate::verif_common::stub_not_interrupted))]
+#[cfg_attr(kani, kani::stub(crate::decode::lzma::DecoderState::process_stream, crate::decode::lzma::DecoderState::scripted_process_stream))]
+pub fn stream_data_arm_glue_l0_n6_ok() {
+    data_arm_glue::<0, 6, 18446744073709551615, 0, false, 1>()
+}
+
+//@ harness props=C16,C05,C15,C07 tier=quick unwind=20 mem_gb=6 timeout=600 native=no
+//@ bound: data arm of Stream::write (real read_data, DecoderState::process_stream scripted): 17 staged leftover bytes, write(1 bytes), 17 staged bytes, no failure; then another write (and finish)
+#[cfg_attr(kani, kani::proof)]
+#[cfg_attr(kani, kani::stub(std::fmt::format, crate::verif_common::stub_format))]
+#[cfg_attr(kani, kani::stub(std::io::Error::is_interrupted, crate::verif_common::stub_not_interrupted))]
+#[cfg_attr(kani, kani::stub(crate::decode::lzma::DecoderState::process_stream, crate::decode::lzma::DecoderState::scripted_process_stream))]
+pub fn stream_data_arm_glue_l17_n1_ok() {
+    data_arm_glue::<17, 1, 18446744073709551615, 0, false, 1>()
+}
+
+//@ harness props=C16,C05,C15,C07 tier=quick unwind=20 mem_gb=6 timeout=600 native=no
+//@ bound: data arm of Stream::write (real read_data, DecoderState::process_stream scripted): 0 staged leftover bytes, write(6 bytes), decoder consumes nothing (declared size reached); then another write (and finish)
+#[cfg_attr(kani, kani::proof)]
+#[cfg_attr(kani, kani::stub(std::fmt::format, crate::verif_common::stub_format))]
+#[cfg_attr(kani, kani::stub(std::io::Error::is_interrupted, crate::verif_common::stub_not_interrupted))]
+#[cfg_attr(kani, kani::stub(crate::decode::lzma::DecoderState::process_stream, crate::decode::lzma::DecoderState::scripted_process_stream))]
+pub fn stream_data_arm_glue_l0_n6_size_reached() {
+    data_arm_glue::<0, 6, 18446744073709551615, 0, false, 0>()
+}
+
+//@ harness props=C16,C05,C15,C07 tier=quick unwind=20 mem_gb=6 timeout=600 native=no
+//@ bound: data arm of Stream::write (real read_data, DecoderState::process_stream scripted): 4 staged leftover bytes, write(6 bytes), staged leftover, decoder consumes nothing (declared size reached); then another write (and finish)
+#[cfg_attr(kani, kani::proof)]
+#[cfg_attr(kani, kani::stub(std::fmt::format, crate::verif_common::stub_format))]
+#[cfg_attr(kani, kani::stub(std::io::Error::is_interrupted, crate::verif_common::stub_not_interrupted))]
+#[cfg_attr(kani, kani::stub(crate::decode::lzma::DecoderState::process_stream, crate::decode::lzma::DecoderState::scripted_process_stream))]
+pub fn stream_data_arm_glue_l4_n6_size_reached() {
+    data_arm_glue::<4, 6, 18446744073709551615, 0, false, 0>()
 }
